@@ -31,7 +31,7 @@ func gcBatch(progs []*prog) ([]gcResult, error) {
 		return os.WriteFile(p, []byte(text), 0o644)
 	}
 	write("go.mod", "module gcbatch\n\ngo 1.25.0\n")
-	write("h/h.go", "package h\n\ntype T struct{}\n\nfunc (T) Panic(v int) { panic(v) }\n\nfunc Panic(v int) { panic(v) }\n")
+	write("h/h.go", "package h\n\ntype T struct{}\n\nfunc (T) Panic(v int) { panic(v) }\n\n//go:noinline\nfunc Panic(v int) { panic(v) }\n\n//go:noinline\nfunc Print(x int) { println(\"O\", x) }\n\nfunc Nop() {}\n\n// not inlined: gc would let a callback recover() as if the deferred call were the callback itself\n//go:noinline\nfunc Call(f func()) { f() }\n\n//go:noinline\nfunc CallN(n int, f func()) {\n\tfor i := 0; i < n; i++ {\n\t\tf()\n\t}\n}\n")
 	var m strings.Builder
 	m.WriteString("package main\n\nimport (\n\t\"os\"\n\t\"strconv\"\n\n\t\"gcbatch/h\"\n)\n\nvar _ h.T\n\nfunc main() {\n\tlo, _ := strconv.Atoi(os.Args[1])\n\thi, _ := strconv.Atoi(os.Args[2])\n\tfor n := lo; n < hi; n++ {\n\t\tprintln(\"#BEGIN\")\n\t\trun(n)\n\t}\n}\n\nfunc run(n int) {\n\tswitch n {\n")
 	for i, p := range progs {
@@ -125,11 +125,11 @@ func parseGc(text string) gcResult {
 			l = strings.TrimPrefix(strings.TrimPrefix(l, "\t"), "panic: ")
 			switch {
 			case strings.HasSuffix(l, " [recovered, repanicked]"):
-				chain = append(chain, strings.TrimSuffix(l, " [recovered, repanicked]")+"R")
+				chain = append(chain, valCode(strings.TrimSuffix(l, " [recovered, repanicked]"))+"R")
 			case strings.HasSuffix(l, " [recovered]"):
-				chain = append(chain, strings.TrimSuffix(l, " [recovered]")+"r")
+				chain = append(chain, valCode(strings.TrimSuffix(l, " [recovered]"))+"r")
 			default:
-				chain = append(chain, l)
+				chain = append(chain, valCode(l))
 			}
 			continue
 		}
